@@ -19,7 +19,7 @@ ASSUMPTIONS = [
     'completion of an unregistration is not demanded when an ancestor is leaving at the same time (the statement speaks of completed ones only)',
     'operations are performed between ticks from the checking thread, never from inside handlers',
 ]
-REQUIRED = ['fire_addressed_to_a_component_instance', 'fire_addressed_to_an_instance_that_left_this_tree', 'register', 'unregister_completed', 'nested_unregister', 'reregister_elsewhere', 'several_unregisters_before_tick',
+REQUIRED = ['dynamic_listener_added_while_registered', 'fire_addressed_to_a_component_instance', 'fire_addressed_to_an_instance_that_left_this_tree', 'register', 'unregister_completed', 'nested_unregister', 'reregister_elsewhere', 'several_unregisters_before_tick',
             'pre_registration_event_delivered', 'subtree_moved_with_children', 'probe_after_detach_on_former_root', 'unregister_pending_noop', 'self_register']
 REQUIRED_OBLIGATIONS = ['LINKS', 'ROOT', 'SUBTREE_INTACT', 'ANNOUNCE_REGISTERED', 'ANNOUNCE_UNREGISTERED', 'PROBE_ONCE', 'PROBE_SCOPE']
 WORKER_TIMEOUT = {'quick': 300, 'thorough': 1500}
@@ -44,6 +44,14 @@ class Pool:
             def _observe(self, event, *args, **kwargs):
                 pool.observe(self, event, args)
 
+        def make_listener(node):
+            # a catch-all listener a component adds to itself while it is running somewhere (from a `registered` handler, say)
+            @handler(channel='*', priority=49)
+            def _listen(self, event, *args, **kwargs):
+                pool.listen(node, event)
+            return _listen
+        self.make_listener = make_listener
+        self.listeners = {}   # vid -> the handler added dynamically
         self.comps = [Node() for _ in range(n)]
         for i, c in enumerate(self.comps):
             c._vid = i
@@ -74,7 +82,22 @@ class Pool:
             root = self.comps[self.ticking] if self.ticking is not None else comp.root
             rec = self.seen[key] = {'name': name, 'args': [self.vid(a) for a in args[:2]], 'uid': getattr(event, '_vuid', None),
                                     'observers': [], 'scope': sorted(self.real_subtree(root)), 'root': self.vid(root)}
+            rec['listeners_expected'] = sorted(v for v in rec['scope'] if v in self.listeners)
         rec['observers'].append(comp._vid)
+
+    def listen(self, comp, event):
+        if event.name != 'probe':
+            return
+        rec = self.seen.get(id(event))
+        if rec is None:
+            # (the class-level observer has the higher priority: it has created the record already - unless the component is not in the
+            # dispatching tree at all and only this stray listener is reached)
+            root = self.comps[self.ticking] if self.ticking is not None else comp.root
+            self.keep.append(event)
+            rec = self.seen[id(event)] = {'name': 'probe', 'args': [], 'uid': getattr(event, '_vuid', None), 'observers': [],
+                                          'scope': sorted(self.real_subtree(root)), 'root': self.vid(root)}
+        rec.setdefault('listeners', []).append(comp._vid)
+        rec.setdefault('listeners_expected', sorted(v for v in rec['scope'] if v in self.listeners))
 
     def real_subtree(self, c, seen=None):
         seen = seen if seen is not None else set()
@@ -225,6 +248,15 @@ def run_case(case):
                 cc.fire(e, tgt)
             else:
                 cc.fire(e)
+        elif k == 'listen':
+            # the component adds a catch-all handler to itself (wherever it is at the moment) / removes it again
+            c = op[1]
+            if c in pool.listeners:
+                comps[c].removeHandler(pool.listeners.pop(c))
+                pool.marks.add('dynamic_listener_removed')
+            else:
+                pool.listeners[c] = comps[c].addHandler(pool.make_listener(comps[c]))
+                pool.marks.add('dynamic_listener_added' + ('_while_registered' if comps[c].parent is not comps[c] else ''))
         elif k == 'tick':
             c, n = op[1], op[2]
             root = comps[c].root
@@ -272,6 +304,13 @@ def run_case(case):
             problems.append(('PROBE_SCOPE', {'event': r['name'], 'uid': r['uid'], 'args': r['args'], 'observers': sorted(r['observers']),
                                              'tree_of_dispatching_root': r['scope'],
                                              'note': 'duplicate delivery' if len(set(r['observers'])) < len(r['observers']) else 'scope mismatch'}))
+    for r in seen:
+        if r['name'] == 'probe' and (r.get('listeners_expected') or 'listeners' in r):
+            counts['PROBE_SCOPE'] += 1
+            got, want = sorted(r.get('listeners', [])), r.get('listeners_expected')
+            if want is not None and got != want:
+                problems.append(('PROBE_SCOPE', {'event': 'probe', 'uid': r['uid'], 'dynamic_listeners_reached': got, 'dynamic_listeners_in_the_tree_of_the_dispatching_root': want,
+                                                 'tree_of_dispatching_root': r['scope'], 'note': 'a catch-all handler added at run time was reached outside / missed inside the dispatching tree'}))
     by_uid = {}
     for r in seen:
         if r['name'] == 'probe':
@@ -308,6 +347,10 @@ def corpus():
                                                        [T, 5, 3], [F, 3], [F, 5], [T, 5, 2], [U, 2], [T, 5, 5], [R, 2, 0], [T, 0, 3], [F, 3], [T, 0, 2]]})
     cs.append({'name': 'reregister-while-queue-pending', 'n': 4, 'ops': [[R, 1, 0], [T, 0, 2], [U, 1], [T, 0, 1], [T, 0, 1], [T, 0, 1], [F, 1], [R, 1, 2],
                                                                         [U, 1], [T, 2, 1], [T, 2, 4], [R, 1, 3], [T, 3, 3], [T, 0, 3]]})
+    # catch-all handlers added at run time, while the component is registered somewhere; then it leaves / moves
+    cs.append({'name': 'dynamic-listeners', 'n': 6, 'ops': [[R, 1, 0], [R, 2, 1], [R, 3, 0], [T, 0, 3], ['listen', 2], ['listen', 3], ['listen', 0], [F, 0], [F, 2], [T, 0, 2],
+                                                            [U, 1], [T, 0, 5], [F, 0], [F, 3], [T, 0, 2], [F, 1], [T, 1, 2], [R, 1, 5], [T, 5, 3], [F, 5], [F, 0], [T, 5, 2], [T, 0, 2],
+                                                            ['listen', 2], [F, 5], [T, 5, 2], ['listen', 4], [R, 4, 0], [T, 0, 2], [F, 0], [T, 0, 2], [U, 3], [T, 0, 4], [F, 0], [T, 0, 2]]})
     # events addressed to a component instance: in the same tree, after it left (before / after the tick that completes it), after it
     # joined another tree, and to the root itself
     cs.append({'name': 'instance-addressed', 'n': 6, 'ops': [[R, 1, 0], [R, 2, 1], [R, 3, 0], [T, 0, 3], [F, 0, 2], [F, 3, 1], [F, 2, 0], [T, 0, 2], [U, 1], [F, 0, 1], [F, 3, 2],
@@ -333,6 +376,8 @@ def gen_case(rng):
             ops.append(['fire', rng.randrange(n)] + ([rng.randrange(n)] if rng.random() < 0.3 else []))
         elif r < 0.7:
             ops.append(['selfreg', rng.randrange(n)])
+        elif r < 0.76:
+            ops.append(['listen', rng.randrange(n)])
         else:
             ops.append(['tick', rng.randrange(n), rng.randint(1, 4)])
     return {'n': n, 'ops': ops}
